@@ -445,9 +445,43 @@ class Body:
         self._dab = None
 
     # ---- identity
+    def is_fieldwise_clone(self):
+        """a hand-written `Clone::clone` that does what the derive does: returns `Self { f: self.f (Copy) or
+        self.f.clone(), .. }` for every field and calls nothing else"""
+        c = getattr(self, "_fwclone", None)
+        if c is not None:
+            return c
+        self._fwclone = False
+        if not (self.path.startswith("<") and self.path.endswith(" as std::clone::Clone>::clone")):
+            return False
+        ty = self.path[1:].split(" as ")[0].split("<")[0]
+        adt = self.facts.adts.get(ty)
+        if not adt or adt["kind"] != "Struct" or not adt["variants"]:
+            return False
+        fields = [f["name"] for f in adt["variants"][0]["fields"]]
+        try:
+            e = self.expr_at_return().strip()
+        except Exception:
+            return False
+        if not (e.k == "agg" and e.x.get("adt") == ty and len(e.a) == len(fields)):
+            return False
+        names = e.x.get("fields") or fields
+        for nm, v in zip(names, e.a):
+            x = v.strip()
+            if x.k == "call" and x.x["path"].endswith(("Clone::clone", "Clone>::clone")) and len(x.a) == 1:
+                x = x.a[0].strip()
+            if not (x.k == "field" and x.x.get("name") == nm and x.a[0].strip().k == "arg" and x.a[0].strip().x.get("i") == 1):
+                return False
+        if any(not callee_name(c_).endswith(("Clone::clone", "Clone>::clone")) for s_, c_, t_ in self.calls() if c_ is not None):
+            return False
+        self._fwclone = True
+        return True
+
     def is_derived(self):
         f = self.facts.fns.get(self.path)
         if f and f.get("derived"):
+            return True
+        if self.path.endswith(" as std::clone::Clone>::clone") and self.is_fieldwise_clone():
             return True
         if "macros" in self.span and any(m in ("Pod", "Zeroable", "derive") for m in self.span["macros"]):
             return True
